@@ -45,7 +45,7 @@ def _matches(g, present, alternatives):
     return g[1] == present
 
 
-def _eval(res, name, m, gname, shape, opts, v, stats):
+def _eval(res, name, m, gname, shape, opts, v, stats, observed=None):
     f = getattr(m, gname, None)
     if f is None:
         stats['rows_skipped'] += 1
@@ -77,6 +77,9 @@ def _eval(res, name, m, gname, shape, opts, v, stats):
         alphabet |= set(e2.same_class(v[p]))
     if len(pos) == 1 and v[pos[0]] in e2.D + 'XK':
         alphabet |= set('XK')
+    if observed:
+        for p in pos:
+            alphabet |= observed.get((len(v), p), set())
     for p in pos:
         for c in sorted(alphabet):
             if c == v[p]:
@@ -155,8 +158,14 @@ def work(item):
         values, st = e2.valid_set(name, m, tier, nseeds=5 if tier != 'thorough' else 30, kw=kw,
                                   cap=120 if tier != 'thorough' else 3000)
         stats['evals'] += st['tried']
+        observed = {}
         for v in values:
-            _eval(res, name, m, gname, shape, opts, v, stats)
+            sh = shape(v)
+            if sh:
+                for p_ in sh[1]:
+                    observed.setdefault((len(v), p_ % len(v)), set()).add(v[p_ % len(v)])
+        for v in values:
+            _eval(res, name, m, gname, shape, opts, v, stats, observed)
         seen |= set(values)
     res['states'] = stats['evals'] + stats['triples']
     res['transitions'] = stats['evals']
@@ -186,5 +195,11 @@ def replay(case):
             if gkw:
                 o2['kw'] = dict(opts.get('kw', {}), **gkw)
                 o2['gkw'] = gkw
-            _eval(res, name, m, gname, shape, o2, case['number'], stats)
+            obs = {}
+            if case.get('mutant'):
+                sh = shape(case['number'])
+                if sh:
+                    for p_ in sh[1]:
+                        obs.setdefault((len(case['number']), p_ % len(case['number'])), set()).add(case['mutant'][p_ % len(case['number'])])
+            _eval(res, name, m, gname, shape, o2, case['number'], stats, obs)
     return [v for v in res['violations'] if v['case'].get('clause') == case.get('clause')]
